@@ -332,20 +332,20 @@ dot = Fn(S, 'do_command_substitution_for_dot', props=('C11',),
     ensures=[
         # only whole words written between backquotes are rewritten here; their tag (the backquote) stays, so no later pass reads them as syntax
         ('C11+C13+C01.dot.only_backquoted_words_change', frame(DCOND2.replace('T', 'old(tokens)@[k]'))),
-        ('C11.dot.inner_command_run_once_per_planning', 'final(lg).ran - old(lg).ran <= final(lg).planned - old(lg).planned'),
+        ('C11+C13.dot.inner_command_run_once_per_planning', 'final(lg).ran - old(lg).ran <= final(lg).planned - old(lg).planned'),
         ('C13.dot.no_word_recorded', 'final(lg).op_words == old(lg).op_words'),
-        ('C11.dot.pass_id', 'final(lg).order == old(lg).order.push(0)'),
+        ('C11+C13.dot.pass_id', 'final(lg).order == old(lg).order.push(0)'),
     ],
     loops={
         0: Loop(invariant=[
-            ('C11.inv.dot.idx', 'idx == __I && tokens@ == old(tokens)@ && lg.ran - old(lg).ran <= lg.planned - old(lg).planned && lg.order == old(lg).order.push(0) && lg.op_words == old(lg).op_words'),
+            ('C11+C13.inv.dot.idx', 'idx == __I && tokens@ == old(tokens)@ && lg.ran - old(lg).ran <= lg.planned - old(lg).planned && lg.order == old(lg).order.push(0) && lg.op_words == old(lg).op_words'),
             ('C11+C13.inv.dot.buff', 'forall|kk: int| umap(buff).contains_key(kk) ==> 0 <= kk < __I && (' + DCOND2.replace('T', 'tokens@[kk]') + ')'),
         ]),
         1: Loop(invariant=[
             ('C11+C13.inv.dot.frame', 'tokens@.len() == old(tokens)@.len() && forall|k: int| 0 <= k < tokens@.len() ==> (#[trigger] tokens@[k]).0@ == old(tokens)@[k].0@ '
                                       '&& (!(' + DCOND2.replace('T', 'old(tokens)@[k]') + ') ==> tokens@[k].1@ == old(tokens)@[k].1@)'),
             ('C11+C13.inv.dot.entries', 'forall|i: int| 0 <= i < __entries@.len() ==> (#[trigger] __entries@[i]).0 < tokens@.len() && (' + DCOND2.replace('T', 'old(tokens)@[__entries@[i].0 as int]') + ')'),
-            ('C11.inv.dot.once3', 'lg.ran - old(lg).ran <= lg.planned - old(lg).planned && lg.order == old(lg).order.push(0) && lg.op_words == old(lg).op_words'),
+            ('C11+C13.inv.dot.once3', 'lg.ran - old(lg).ran <= lg.planned - old(lg).planned && lg.order == old(lg).order.push(0) && lg.op_words == old(lg).op_words'),
         ]),
     },
 )
